@@ -300,7 +300,10 @@ class ASTTypeBuilder:
         return UnionType(
             name=type_def.name.value,
             description=_desc(type_def),
-            types=[
+            # has to be lazy to support (invalid, reported by the schema
+            # validation) cycles such as an object type listing the union as
+            # an interface
+            types=lambda: [
                 cast(ObjectType, self.build_type(type_))
                 for type_ in type_def.types
             ],
